@@ -494,6 +494,10 @@ package main
 //@ requires f != nil && wfc2(c) && mapOK(c.gen, c.field.FieldDescriptorProto) && c.desc.DescriptorProto != nil
 //@ modifies *f, c.plugin.Messages, c.plugin.Imports.qualifiers[_]
 //@ ensures [C18] imp(result == nil, f.MapValueField != nil)
+//@ # the element attributes of a map are those of its value field; the Go type is gogo's map type string
+//@ define mv = f.MapValueField
+//@ ensures [C02,C13,C19] imp(result == nil, f.ElemType == mv.ElemType && f.ElemValueType == mv.ElemValueType && f.ValueCastToType == mv.ValueCastToType && f.ValueCastFromType == mv.ValueCastFromType && f.GoElemType == mv.GoElemType)
+//@ ensures [C02] imp(result == nil, f.IsNullable == strcontains(f.GoType, "*") && f.Type == old(f.Type) && f.ValueType == old(f.ValueType) && f.IsMessage == old(f.IsMessage))
 //@ ensures f.Name == old(f.Name) && f.NameSnake == old(f.NameSnake) && f.Path == old(f.Path) && f.IsRequired == old(f.IsRequired) && f.IsComputed == old(f.IsComputed) && f.IsSensitive == old(f.IsSensitive) && f.IsMap == old(f.IsMap) && f.IsRepeated == old(f.IsRepeated) && same(f.Validators, old(f.Validators)) && same(f.PlanModifiers, old(f.PlanModifiers)) && f.Comment == old(f.Comment) && f.IsMessage == old(f.IsMessage) && f.IsCustomType == old(f.IsCustomType) && f.OneOfName == old(f.OneOfName) && f.OneOfType == old(f.OneOfType)
 //@ ensures wfp(c.plugin)
 
@@ -539,6 +543,10 @@ package main
 //@ ensures [C01,C13] imp(one, r0.GoElemTypeIndirect == replaceall(r0.GoElemType, "*", "") && imp(!r0.IsMap, r0.GoType == c.goType))
 //@ ensures [C01,C13] imp(one && !r0.IsMap && !r0.IsRepeated, r0.GoElemType == c.goType)
 //@ ensures [C07] imp(one && c.field.OneofIndex == nil, r0.OneOfName == "" && r0.OneOfType == "")
+//@ # the Terraform type row reaches the Field unchanged unless a schema-type override is configured (maps: the element part comes from the value field)
+//@ define hasO = has(c.config.SchemaTypes, c.path) || has(c.config.SchemaTypes, c.typeName)
+//@ ensures [C02,C19,C11] imp(one && !r0.IsMap && !hasO, same(r0.TerraformType, first(c.GetTerraformType())))
+//@ ensures [C02,C19] imp(one && r0.IsMap && !hasO, r0.Type == first(c.GetTerraformType()).Type && r0.ValueType == first(c.GetTerraformType()).ValueType)
 //@ ensures imp(result1 == nil && 0 <= j0 && j0 < len(result0), result0[j0] != nil && fresh(result0[j0]))
 //@ ensures wfp(c.plugin)
 
@@ -1143,6 +1151,8 @@ package main
 
 //@ emits CopyTo when Kind == "Primitive" && Embed && !IsNullable
 //@ ensures [C08] imp(hasT && prevOK && emb != nil, o.Null == prev.Null)
+//@ # a nil parent leaves the planned value in place (only the null flag is set)
+//@ ensures [C08] imp(hasT && prevOK && emb == nil, same(o.Value, prev.Value))
 
 //@ emits CopyTo when Kind == "Primitive" && Embed && !IsNullable
 //@ ensures [C19,C03] imp(hasT && emb != nil, same(o.Value, $CastTo(emb.F)))
